@@ -212,8 +212,14 @@ func verifC04(a *vh.Args) {
 			earlySizes = []int{0, 1, 4095 - flightLen, 4096 - flightLen, 4097 - flightLen, 65536}
 		}
 		earlySizes = append(earlySizes, -1) // -1: no early data and the covert speaks first (flight alone must be recognised)
-		for _, co := range coRes {
+		coHere := coRes
+		if tc.spec.tt == pb.TransportType_Prefix {
+			coHere = append(append([]string{}, coRes...), "alone;station-holds-two-keys")
+		}
+		for _, co := range coHere {
+			vfix.PrefixKeyRotation = strings.Contains(co, "two-keys")
 			rm := vfix.Manager(nil, vfix.Selector(vfix.SubnetsTOML), &vfix.Tester{}, vfix.AllWrapping, nil)
+			vfix.PrefixKeyRotation = false
 			var anns []cj.VerifDetectorMsg
 			rm.VerifCaptureDetector(&anns)
 			mine := addReg(rm, tc.spec, phantom)
